@@ -246,8 +246,11 @@ class PicklePersister(Persister):
         checkpoint = PersistedCheckpoint(process.pid, tag)
         persisted_pickle = PersistedPickle(checkpoint, bundle)
 
+        # Serialise first: should that fail, a checkpoint stored earlier under this pid and tag is left as it is
+        data = pickle.dumps(persisted_pickle)
+
         with open(self._pickle_filepath(process.pid, tag), 'w+b') as handle:
-            pickle.dump(persisted_pickle, handle)
+            handle.write(data)
 
     def load_checkpoint(self, pid: PID_TYPE, tag: Optional[str] = None) -> Bundle:
         """
